@@ -195,6 +195,9 @@ func (r *replayer) runPath(pi int, path []edge) {
 		if err != nil {
 			r.t.Fatalf("path %d step %d %s: harness error: %v", pi, si, hx.JSON(e.Act), err)
 		}
+		if ad.Switched { // the renewal is now the contract: compare it relative to the spec's renewal
+			ad.SpecBase, ad.Switched = e.To.Rev, false
+		}
 		bad := false
 		switch e.Act.Op {
 		case "Deliver", "Finish", "Abort", "Truncated":
